@@ -70,6 +70,22 @@ def case_strategy():
             own = {"fn": draw(st.sampled_from(fns)), "npos": len(m["pos"]), "kws": [p["name"] for p in m["kw"]]}
             if own["fn"] == "next":
                 own["form"] = draw(st.sampled_from([None, None, "explicit", "lambda"]))
+            # the last positional parameter handed on BY KEYWORD (documented when every method names that position
+            # identically): the delegation must continue exactly as with the positional spelling
+            k = len(m["pos"])
+            maxp = max(len(x["pos"]) for x in methods)
+            # (the regime in which the entry point documents positional-by-keyword: at most one position that some
+            # method lacks - see C03)
+            regime = len([j for j in range(maxp) if any(j >= len(x["pos"]) or x["pos"][j].get("opt") for x in methods)]) <= 1
+            if k and regime and draw(st.integers(0, 3)) == 0:
+                nm = m["pos"][-1]["name"]
+                if all((len(x["pos"]) < k or (x["pos"][k - 1]["name"] == nm and not x["pos"][k - 1].get("posonly")))
+                       and all(q["name"] != nm for q in x["kw"]) and not any(q.get("posonly") for q in x["pos"][:k])
+                       and nm not in [q["name"] for q in x["pos"][:k - 1]]
+                       for x in methods):
+                    own["npos"] = k - 1
+                    own["kws"] = own["kws"] + [nm]
+                    own["bykw"] = nm
             sites = [own]
             if draw(st.integers(0, 2)) == 0:
                 sites.append({"fn": draw(st.sampled_from(["call_next", "recurse"])),
@@ -189,6 +205,9 @@ def run_case(spec):
             for j, (idx, mid, site, pos, dkws) in enumerate(delegs):
                 m = prog.by_id[mid]
                 dk = {k: v for k, v in dkws.items()}
+                if site.get("bykw") and site["bykw"] in dk:
+                    pos = list(pos) + [dk.pop(site["bykw"])]  # a positional parameter passed by keyword
+                    res.label("delegation-with-positional-by-keyword")
                 exp = expected_next(methods, m, site["fn"], pos, dk, env)
                 same = (c["script"][j][2] == "same") if j < len(c["script"]) else False
                 same_chain = same_chain and same and site["fn"] != "recurse"
